@@ -470,3 +470,60 @@ Theorem C03_t2j_double_finite_from_source :
   forall b, 0 <= b -> Gen_t2jfinite.double_not_finite b = negb (Num.f64_is_finite b).
 Proof. exact GenFiniteProofs.double_not_finite_is_finite. Qed.
 Print Assumptions C03_t2j_double_finite_from_source.
+
+(* ================================================================================================================
+   THE ROOT (do), closed: ConvertException and check 304 on the root walk (proofs/T2JBytesRoot.v). *)
+From DG Require Import T2JBytesRoot.
+
+(* root_walkw_x (defined in the proofs file) is T2JUnset.root_walkw with ONE correction: its exception branch keeps the
+   members handleUnsets appends to the error text — the code appends them, the spec of T2JUnset.v drops them (its header says
+   so: the 301 generator does not combine ConvertException with the write options).  Forgetting them gives root_walkw exactly *)
+Theorem C03_root_spec_correction : forall o fs vs acc seen bs,
+  forgets (fst (root_walkw o fs vs acc seen bs)) (root_walkw_x o fs vs acc seen).
+Proof. exact root_walkw_x_forget. Qed.
+Print Assumptions C03_root_spec_correction.
+
+(* do under ConvertException REFINES the corrected root spec, for every lexeme function: a document (WText), or the
+   exception field's JSON followed by what handleUnsets appends as the text of the returned error (WExc), or an error —
+   the finiteness of the members before the exception field included (the identification of xwalk with the spec's TExc
+   branch that C03_t2j_walk_rootx_refines_partial left open) *)
+Theorem C03_t2j_walk_rootx_refines : forall fd o fs vs n r, o_convert_exception o = true ->
+  wf (VStruct vs) = true -> conforms (VStruct vs) (DStruct fs) = true -> desc_wf (DStruct fs) = true -> base_is_struct (DStruct fs) ->
+  (depth (VStruct vs) <= S n)%nat -> (depth (VStruct vs) <= max_skip_depth)%nat ->
+  t2j_walk_rootx fd o (S n) (DStruct fs) (encode (VStruct vs) ++ r) = spec_x fd (root_walkw_x o fs vs [] []).
+Proof. exact walk_rootx_refines. Qed.
+Print Assumptions C03_t2j_walk_rootx_refines.
+
+(* with the write options off nothing is appended and the statement is about T2JUnset.t2j_specw itself *)
+Theorem C03_t2j_walk_rootx_refines_specw : forall fd o fs vs n r, o_convert_exception o = true ->
+  o_write_default o = false -> o_write_required o = false ->
+  wf (VStruct vs) = true -> conforms (VStruct vs) (DStruct fs) = true -> desc_wf (DStruct fs) = true -> base_is_struct (DStruct fs) ->
+  (depth (VStruct vs) <= S n)%nat -> (depth (VStruct vs) <= max_skip_depth)%nat ->
+  t2j_walk_rootx fd o (S n) (DStruct fs) (encode (VStruct vs) ++ r) =
+  match fst (t2j_specw o (DStruct fs) (VStruct vs)) with
+  | TOk e => if jexp_finite e then Some (WText (jexp_print fd e)) else None
+  | TExc e => if jexp_finite e then Some (WExc (jexp_print fd e)) else None
+  | TErr _ => None
+  end.
+Proof. exact walk_rootx_refines_off. Qed.
+Print Assumptions C03_t2j_walk_rootx_refines_specw.
+
+(* check 304 at the root (what the checker runs when ConvertException is off: t2j_walk_root with response-base extraction):
+   sound and complete against the root spec tree *)
+Theorem C03_check304_root_sound : forall o v d n r m r' out, o_convert_exception o = false ->
+  wf v = true -> conforms v d = true -> desc_wf d = true -> desc_ok d = true -> base_is_struct d ->
+  (depth v <= n)%nat -> (depth v <= max_skip_depth)%nat ->
+  t2j_walk_root fd_mark o n d (encode v ++ r) = Some (m, r') ->
+  text_agrees (S (length m)) m out = true ->
+  exists e, fst (t2j_specw o d v) = TOk e /\ jexp_finite e = true /\ agrees (jtoks e) out.
+Proof. exact check304_root_sound. Qed.
+Print Assumptions C03_check304_root_sound.
+
+Theorem C03_check304_root_complete : forall o v d n r m r' out e, o_convert_exception o = false ->
+  wf v = true -> conforms v d = true -> desc_wf d = true -> desc_ok d = true -> base_is_struct d ->
+  (depth v <= n)%nat -> (depth v <= max_skip_depth)%nat ->
+  t2j_walk_root fd_mark o n d (encode v ++ r) = Some (m, r') ->
+  fst (t2j_specw o d v) = TOk e -> agrees (jtoks e) out ->
+  text_agrees (S (length m)) m out = true.
+Proof. exact check304_root_complete. Qed.
+Print Assumptions C03_check304_root_complete.
